@@ -248,7 +248,7 @@ class U(Field):
 
     kind = "uint"
 
-    def __init__(self, attr, bits, lo=0, hi=None, exhaustive=None, fmt="d", nominal=1, skip=()):
+    def __init__(self, attr, bits, lo=0, hi=None, exhaustive=None, fmt="d", nominal=1, skip=(), extra=()):
         super().__init__(attr)
         self.bits = bits
         self.lo = lo
@@ -257,6 +257,7 @@ class U(Field):
         self.fmt = fmt
         self._nom = nominal
         self.skip = set(skip)
+        self.extra = set(extra)  # values with a mnemonic in the presentation format
 
     def nominal(self):
         return self._nom
@@ -274,6 +275,7 @@ class U(Field):
             vs = {0, 1, 2, 127, 128, 255, 256, 257, 0x7FFF, 0x8000, 0xFFFF, 0x10000}
             vs |= {0x7FFFFFFF, 0x80000000, 0xFFFFFFFF, 0x100000000, m - 1, m, m >> 1, (m >> 1) + 1}
             vs |= {self.lo, self.lo + 1, self.hi - 1, self.hi}
+            vs |= self.extra
             vs = sorted(vs)
         return [(v, self.classify(v)) for v in vs if self._ok(v)]
 
